@@ -545,6 +545,7 @@ func NewBufferedChannelQueue[T any](channelCapacity int, bufferSizeMaximum int, 
 
 func (q *BufferedChannelQueue[T]) freeNodePool() {
 	for range q.freeNodeWorkerCh {
+		verifAt("bcq.freeNode.wake")
 		time.Sleep(q.freeNodeHookPoolIntervalDuration)
 
 		if q.isClosed.Get() {
@@ -561,12 +562,15 @@ func (q *BufferedChannelQueue[T]) freeNodePool() {
 
 func (q *BufferedChannelQueue[T]) loadFromPool() {
 	for range q.loadWorkerCh {
+		verifAt("bcq.loader.wake")
 
 		if q.isClosed.Get() {
 			break
 		}
+		verifAt("bcq.loader.checked")
 
 		q.lock.Lock()
+		verifAt("bcq.loader.locked")
 
 		var val T
 		var pollErr, offerErr error
@@ -577,6 +581,7 @@ func (q *BufferedChannelQueue[T]) loadFromPool() {
 			if pollErr != nil {
 				break
 			}
+			verifAt("bcq.loader.inhand")
 
 			offerErr = q.blockingQueue.Offer(val)
 			// If failed, unshift it back
@@ -586,6 +591,7 @@ func (q *BufferedChannelQueue[T]) loadFromPool() {
 			}
 		}
 		q.lock.Unlock()
+		verifAt("bcq.loader.beforeSleep")
 
 		time.Sleep(q.loadFromPoolDuration)
 
@@ -643,6 +649,7 @@ func (q *BufferedChannelQueue[T]) GetFreeNodeHookPoolIntervalDuration() time.Dur
 
 // GetChannel Get Channel(for Selecting channels usages)
 func (q *BufferedChannelQueue[T]) GetChannel() chan T {
+	verifAt("bcq.GetChannel.enter")
 	q.notifyWorkers()
 
 	return q.blockingQueue
@@ -653,6 +660,7 @@ func (q *BufferedChannelQueue[T]) Count() int {
 	if q.isClosed.Get() {
 		return 0
 	}
+	verifAt("bcq.Count.checked")
 
 	q.lock.RLock()
 	defer q.lock.RUnlock()
@@ -669,9 +677,12 @@ func (q *BufferedChannelQueue[T]) IsClosed() bool {
 func (q *BufferedChannelQueue[T]) Close() {
 	q.lock.Lock()
 	defer q.lock.Unlock()
+	verifAt("bcq.Close.locked")
 
 	q.isClosed.Set(true)
+	verifAt("bcq.Close.flagged")
 	close(q.loadWorkerCh)
+	verifAt("bcq.Close.loadChClosed")
 	close(q.blockingQueue)
 }
 
@@ -715,6 +726,7 @@ func (q *BufferedChannelQueue[T]) Take() (T, error) {
 	if q.isClosed.Get() {
 		return *new(T), ErrQueueIsClosed
 	}
+	verifAt("bcq.Take.checked")
 
 	q.notifyWorkers()
 
@@ -726,6 +738,7 @@ func (q *BufferedChannelQueue[T]) TakeWithTimeout(timeout time.Duration) (T, err
 	if q.isClosed.Get() {
 		return *new(T), ErrQueueIsClosed
 	}
+	verifAt("bcq.TakeWithTimeout.checked")
 
 	q.notifyWorkers()
 
@@ -734,6 +747,7 @@ func (q *BufferedChannelQueue[T]) TakeWithTimeout(timeout time.Duration) (T, err
 
 // Offer Offer the T val(non-blocking)
 func (q *BufferedChannelQueue[T]) Offer(val T) error {
+	verifAt("bcq.Offer.enter")
 	q.lock.Lock()
 	defer q.lock.Unlock()
 
@@ -764,6 +778,7 @@ func (q *BufferedChannelQueue[T]) Offer(val T) error {
 	}
 
 	q.pool.Offer(val)
+	verifAt("bcq.Offer.pooled")
 	q.loadWorkerCh.Offer(1)
 	return nil
 }
@@ -773,8 +788,10 @@ func (q *BufferedChannelQueue[T]) Poll() (T, error) {
 	if q.isClosed.Get() {
 		return *new(T), ErrQueueIsClosed
 	}
+	verifAt("bcq.Poll.checked")
 
 	q.notifyWorkers()
+	verifAt("bcq.Poll.notified")
 
 	return q.blockingQueue.Poll()
 }
